@@ -19,7 +19,9 @@ func init() {
 			"L3 every access to a field of the frozen guarded-by table holds its lock (write mode for writes); " +
 			"L4 fields accessed with sync/atomic are never accessed plainly; " +
 			"E7 timers dereferenced without a nil test are armed before (or within the same critical section as) the store that publishes their owner in a shared table; " +
-			"C15.4 Allocation.Close / removeTCPConnection run only with Manager.lock in the entry lockset; every close(ch) is preceded by a closed-test or happens once by construction.",
+			"C15.4 Allocation.Close / removeTCPConnection run only with Manager.lock in the entry lockset; every close(ch) is preceded by a closed-test or happens once by construction; " +
+			"cb operator callbacks are not invoked with Manager.lock possibly held (two teardown events are the listed exceptions); " +
+			"hash no hash/HMAC state shared through a struct field or captured variable is used without a lock (none exists today).",
 		NotCovered: "The race detector's verdict and deadlock freedom under every schedule are dynamic; what is decided is the lock discipline (necessary conditions). Check-then-act windows between a guard and its use are not covered.",
 		Run:        runC18,
 	})
@@ -34,6 +36,116 @@ func runC18(c *Ctx) {
 	ruleNoGuardedAlias(c, "C18.L3b")
 	ruleCloseUnderLock(c, "C18.C15_4")
 	ruleCloseOnce(c, "C18.close")
+	ruleCallbacksOutsideManagerLock(c, "C18.cb")
+	ruleSharedHashState(c, "C18.hash")
+}
+
+// ruleCallbacksOutsideManagerLock: operator-supplied callbacks run without the manager-wide
+// lock: a handler that calls back into the manager (AllocationCount, a metrics scrape) would
+// deadlock itself, a slow one would stall every other allocation.
+func ruleCallbacksOutsideManagerLock(c *Ctx, rule string) {
+	w := c.W
+	li := w.lockInfo()
+	c.Rule(rule, "no operator callback under the manager lock: every dynamic call of a function-typed field of an EventHandler / of a configured handler (fields named On*, PermissionHandler, AuthHandler, QuotaHandler) in package allocation is made with allocation.Manager.lock not possibly held (may-lockset over all callers)", 4)
+	const mgr = "allocation.Manager.lock"
+	allocPath := w.tpkg("allocation").Path()
+	n := 0
+	for _, fn := range w.ModFns {
+		if fnPkgPath(fn) != allocPath {
+			continue
+		}
+		w.eachInstr(fn, func(in ssa.Instruction) {
+			call, ok := in.(*ssa.Call)
+			if !ok || call.Call.StaticCallee() != nil || call.Call.IsInvoke() {
+				return
+			}
+			_, f, isL := fieldLoad(call.Call.Value)
+			if !isL {
+				return
+			}
+			name := f.Name()
+			if !(strings.HasPrefix(name, "On") || strings.HasSuffix(name, "Handler") || strings.HasSuffix(name, "handler")) {
+				return
+			}
+			if _, isSig := f.Type().Underlying().(*types.Signature); !isSig {
+				return
+			}
+			n++
+			c.Anchor(rule, name)
+			may := li.mayAt(in)
+			// confirmed exceptions (read on the reference tree): the per-entry deleted-events of
+			// an allocation's teardown — Allocation.Close runs under Manager.lock by design
+			// (C15.4: it also guards the allocation's TCP connections), and Close removes every
+			// permission and binding through the functions that report them
+			if (name == "OnPermissionDeleted" || name == "OnChannelDeleted") && (holds(may, mgr, false) || holds(may, mgr, true)) {
+				c.Triv(rule, fname(fn), name, w.instrPos(in), "teardown path: reached from Allocation.Close, which runs under Manager.lock by design (C15.4)")
+				return
+			}
+			if holds(may, mgr, false) || holds(may, mgr, true) {
+				c.Bad(rule, fname(fn), name, w.instrPos(in), "the operator callback "+name+" can run with Manager.lock held: a handler that queries the manager deadlocks, a slow handler stalls every allocation of this listener")
+			} else {
+				c.OK(rule, fname(fn), name, w.instrPos(in), "Manager.lock is not held here")
+			}
+		})
+	}
+	if n == 0 {
+		c.Bad(rule, "-", "callbacks", "-", "no operator callback invocation found in package allocation: anchor gone")
+	}
+}
+
+// ruleSharedHashState: a hash.Hash (or cipher/HMAC state) kept in a struct field is shared,
+// mutable, not safe for concurrent use; the nonce managers and auth handlers are used from
+// every read loop at once.
+func ruleSharedHashState(c *Ctx, rule string) {
+	w := c.W
+	li := w.lockInfo()
+	c.Rule(rule, "no unsynchronised shared hash state: a struct field or captured variable of type hash.Hash (an HMAC/MD5/SHA state) that module code invokes Write/Sum/Reset on is used only with a mutex of the same object held; per-call hash.New / hmac.New values (the form used today) are unshared and need nothing. Expected instances today: 0 uses of shared state", 0)
+	isHash := func(t types.Type) bool { return t != nil && t.String() == "hash.Hash" }
+	n, nLocal := 0, 0
+	for _, fn := range w.ModFns {
+		if fn.Synthetic != "" {
+			continue
+		}
+		w.eachInstr(fn, func(in ssa.Instruction) {
+			call, ok := in.(*ssa.Call)
+			if !ok || !call.Call.IsInvoke() || !isHash(call.Call.Value.Type()) {
+				return
+			}
+			switch call.Call.Method.Name() {
+			case "Write", "Sum", "Reset":
+			default:
+				return
+			}
+			v := w.resolveLoad(call.Call.Value)
+			shared := ""
+			if _, f, isL := fieldLoad(v); isL {
+				shared = "field " + f.Name()
+			} else if fv, isFV := v.(*ssa.FreeVar); isFV {
+				shared = "captured variable " + fv.Name()
+			} else if u, isU := v.(*ssa.UnOp); isU {
+				if fv, isFV := u.X.(*ssa.FreeVar); isFV {
+					shared = "captured variable " + fv.Name()
+				}
+				if g, isG := u.X.(*ssa.Global); isG {
+					shared = "global " + g.Name()
+				}
+			}
+			if shared == "" {
+				nLocal++
+				return
+			}
+			n++
+			c.Anchor(rule, fname(fn))
+			if len(li.mustAt(in)) > 0 {
+				c.OK(rule, fname(fn), "hash state", w.instrPos(in), "shared hash state ("+shared+") used with a lock held")
+			} else {
+				c.Bad(rule, fname(fn), "hash state", w.instrPos(in), "the hash state in "+shared+" is shared between concurrent requests and used without a lock: interleaved Reset/Write/Sum produce wrong MACs (spurious rejections) or panic inside the hash")
+			}
+		})
+	}
+	if n == 0 {
+		c.Triv(rule, "-", "hash state", "-", fmt.Sprintf("no shared hash state in the module (%d uses of per-call hash values)", nLocal))
+	}
 }
 
 // ---------------------------------------------------------------------------------
